@@ -157,6 +157,22 @@ PROPS = {
         assumptions=["silent rules and built-ins other than EOI never reach ParserState::rule and are not reportable, as the statement says",
                      "the derive back-end is traced by the same hook; it is exercised through C02's generated batch"],
     ),
+    "C14": dict(
+        runs=[dict(bin="mon_meta", sub="c14", features="", config="default",
+                   build_failure_is_violation="meta/src/grammar.pest compiles with the working tree's generator and names the rules of the checked-in parser")],
+        rule=("texts from C09's workload (mutants of every grammar file in the repository, mutants of printed generator grammars, random "
+              "token strings; sub-rules also get short windows of those texts) x the meta-grammar's top rule and each of its 65 sub-rules: "
+              "(1) pest_meta::parser::parse (checked-in grammar.rs), (2) pest_vm over parse_and_optimize(grammar.pest), (3) a parser derived at "
+              "check time from grammar.pest by the working tree's generator; three-way equality of acceptance, token stream and error "
+              "(position + rule-name sets), under a 300k call limit (hit => skipped and counted). Also: the rule set of grammar.rs equals the "
+              "rule set of grammar.pest. Non-trivial: text >= 4 bytes; distinct = (rule, text) hashes."),
+        level_text=("Exploration: the checked-in parser, the interpreted grammar file and a freshly generated parser are executed side by side on "
+                    "valid, near-miss and arbitrary texts from every rule; any observable difference is a violation."),
+        level_note="If grammar.pest no longer compiles with the working tree's generator the monitor cannot be built; that is reported as a violation of this property (the grammar file then denotes no parser).",
+        technique="runtime monitoring: three-way differential execution (checked-in parser, VM over the grammar file, freshly derived parser) over mutated grammar texts, all meta-grammar rules as start rules",
+        assumptions=["error rule lists are compared as sets"],
+        engine="mon_meta",
+    ),
 }
 
 HOOK_COMMITS = [
